@@ -53,14 +53,14 @@ def _job(args):
         return K.run_history(hid, h, facets_on=(len(args) < 3 or args[2]))
     except Exception as e:   # a crash of the driver itself is a machinery failure, reported by the parent
         import traceback
-        return {"id": hid, "h": h, "crash": "%s: %s\n%s" % (type(e).__name__, e, traceback.format_exc()[-1500:])}
+        return {"id": hid, "h": h, "crash": "%s: %s\n%s" % (type(e).__name__, e, traceback.format_exc()[-3000:])}
 
 
 def replay(jobs, procs=16):
     res = E.pmap(_job, jobs, procs=procs, chunk=2)
     crashed = [r for r in res if "crash" in r]
     if crashed:
-        raise E.MachineryError("driver crashed on %d histories, first: %s\n%s" % (len(crashed), crashed[0]["id"], crashed[0]["crash"]))
+        raise E.DriverCrash("driver crashed on %d histories, first: %s" % (len(crashed), crashed[0]["id"]), crashed[0]["crash"])
     return res
 
 
